@@ -96,6 +96,18 @@ func runC18(c *eng.Ctx) {
 		f.ConsumedBefore("R3", decName, useOf("v.Name"), decName)
 		f.ConsumedBefore("R3", decVal, useOf("v.Value"), decVal)
 		f.PassesBetween("R3", useOf("v.Name"), eng.Or(seps, sepb), useOf("v.Value"))
+		// once the digest has taken over, nothing is written to the abandoned buffer any more (h is never
+		// reset, so after the switch every `h != nil` test takes its true arm: those false edges are excluded)
+		takeover := eng.Node("h = xxhash.New()", func(g *eng.Graph, n ast.Node) bool { return nodeText(n) == "h = xxhash.New()" })
+		f.Has("R3", takeover, 1)
+		f.Only("R3", eng.AssignVar("h"), "is assigned only by the switch to the digest", func(l eng.Loc) bool {
+			_, isAssign := l.Node.(*ast.AssignStmt)
+			return !isAssign || nodeText(l.Node) == "h = xxhash.New()"
+		})
+		f.GivenBranch("h != nil", true).NoPath("R3", takeover, eng.Node("b = append(b, …)", func(g *eng.Graph, n ast.Node) bool {
+			return strings.HasPrefix(nodeText(n), "b = append(b, ")
+		}))
+		f.PassesBetween("R3", takeover, eng.Node("h.Write(b)", func(g *eng.Graph, n ast.Node) bool { c, ok := n.(*ast.CallExpr); return ok && nodeText(c) == "h.Write(b)" }), useOf("v.Name"))
 	case "slicelabels":
 		f.AstEvery("R3", "streaming loop after the buffer overflowed", func(n ast.Node) bool {
 			rs, ok := n.(*ast.RangeStmt)
